@@ -227,6 +227,43 @@ def _range_vals(call, env):
     return list(range(*[ev(a) for a in call.args]))
 
 
+def _no_relation_guard(t, br, var):
+    """`p.get_nb_blocks() > 1`, `p.d >= 2`, `p.blocks_dict` (non-empty): partitions skipped by these have no pair of distinct blocks / no point"""
+    if not br:
+        return False
+    if isinstance(t, ast.Compare) and len(t.ops) == 1 and isinstance(t.comparators[0], ast.Constant):
+        l = t.left
+        subj = (isinstance(l, ast.Call) and call_name(l) == "get_nb_blocks" and dotted(l.func.value) == var) or dotted(l) == var + ".d"
+        if subj and ((isinstance(t.ops[0], ast.Gt) and t.comparators[0].value in (0, 1)) or (isinstance(t.ops[0], ast.GtE) and t.comparators[0].value in (1, 2))
+                     or (isinstance(t.ops[0], ast.NotEq) and t.comparators[0].value == 1)):
+            return True
+        if isinstance(l, ast.Call) and call_name(l) == "len" and l.args and dotted(l.args[0]) == var + ".blocks_dict" and \
+                ((isinstance(t.ops[0], ast.Gt) and t.comparators[0].value == 0) or (isinstance(t.ops[0], ast.GtE) and t.comparators[0].value == 1)):
+            return True
+    return dotted(t) == var + ".blocks_dict"
+
+
+def r_strong_registry(ctx):
+    """blocks_dict keeps the decomposed points alive: a point decomposed through a temporary (`partition.get_block(y - x, k)`) stays a key, so
+    its blocks are still there when the relations are generated."""
+    bp = ctx.repo.cls("BlockPartition")
+    inits = []
+    for fn in bp.methods.values():
+        for s0 in flow.stmts_of(fn, ast.Assign):
+            if any(dotted(t) == "self.blocks_dict" for t in s0.targets):
+                inits.append((fn, s0))
+    if not inits:
+        raise AnalysisError("BlockPartition: no initialisation of blocks_dict found")
+    for fn, s0 in inits:
+        v = s0.value
+        weak = [c for c in ast.walk(v) if isinstance(c, ast.Call) and (call_name(c) or "").startswith("Weak") or
+                (isinstance(c, ast.Call) and (dotted(c.func) or "").startswith("weakref."))]
+        ctx.ob("R-MEMOBLK", "BlockPartition.%s::blocks_dict holds its keys" % fn.name, not weak,
+               "the decomposition table is an ordinary mapping: decomposed points stay registered" if not weak else
+               "`%s`: the table drops a decomposed point as soon as the program holds no other reference to it (any point decomposed through a "
+               "temporary combination), and its blocks get no orthogonality relation" % norm_stmt(s0), loc(fn, s0))
+
+
 def r_registered(ctx):
     """Every partition is registered and the solve root generates and drains the relations of every registered partition."""
     sub = Ctx(ctx.prop, ctx.repo, ctx.tier)
@@ -245,11 +282,21 @@ def r_registered(ctx):
         if lp is not None and dotted(base_it) == "BlockPartition.list_of_partitions" and isinstance(tgt, ast.Name) \
                 and dotted(calls[0].func.value) == tgt.id and not flow.conditions_guarding(lp):
             ok, msg = True, "the relations of every registered partition are generated at each solve"
+            # a guard between the loop header and the call is harmless only when it skips partitions that have no relation at all
+            for t, br, _ in flow.conditions_guarding(common.stmt_of(calls[0])):
+                if not _no_relation_guard(t, br, tgt.id):
+                    ok = False
+                    msg = ("the relations of a registered partition are generated only if `%s%s`: the relations of points decomposed since the last "
+                           "generation are never imposed" % ("" if br else "not ", src(t)))
+            early = [x for x in flow.stmts_of_block(lp.body) if isinstance(x, (ast.Break, ast.Continue, ast.Return)) and x.lineno < calls[0].lineno]
+            if ok and early:
+                ok, msg = False, "the loop over the partitions can skip the generation (`%s` at line %d)" % (norm_stmt(early[0]), early[0].lineno)
     ctx.ob("R-PARTREG", "PEP.%s::generate for every registered partition" % root.name, ok, msg, loc(root, calls[0] if calls else root))
 
 
 def run(ctx):
     r_blocks(ctx)
+    r_strong_registry(ctx)
     r_ortho(ctx)
     r_registered(ctx)
     pepsolve.r_fresh_declarations(ctx, only=("declare_block_partition",))
